@@ -363,6 +363,12 @@ static void case_meta(uint64_t idx, vf_rng *r)
 			if (k || mrefs <= 0 || ndef >= 4) break;
 			if (mt->_vptr->convertable.convert((MPT_INTERFACE(convertable) *) mt, MPT_ENUM(TypeReplyPtr), &rc) < 0 || !rc) break;
 			if (mt->_vptr->convertable.convert((MPT_INTERFACE(convertable) *) mt, MPT_ENUM(TypeReplyDataPtr), &rd) < 0 || !rd) break;
+			if (vf_chance(r, 1, 3)) {
+				/* nothing armed: defer must be refused and must not leave a reference behind */
+				vf_at("reply_context::defer"); vf_count("meta:reply-defer-without-request", 1);
+				MPT_INTERFACE(reply_context_detached) *none = rc->_vptr->defer(rc);
+				VF_CHECK(!none, "meta:defer-without-request-accepted", "%s: defer() without an armed request returned a handle", ctx);
+			}
 			vf_at("mpt_reply_set");
 			if (mpt_reply_set(rd, sizeof(idb), idb) < 0) break;
 			vf_at("reply_context::defer"); vf_count("meta:reply-defer", 1);
@@ -370,6 +376,12 @@ static void case_meta(uint64_t idx, vf_rng *r)
 			if (!d) break;
 			defd[ndef++] = d;
 			cnt[0]++;
+			if (vf_chance(r, 1, 2)) {
+				/* the request has moved to the handle: a second defer is refused, counts unchanged */
+				vf_at("reply_context::defer"); vf_count("meta:reply-defer-twice", 1);
+				MPT_INTERFACE(reply_context_detached) *again = rc->_vptr->defer(rc);
+				VF_CHECK(!again, "meta:second-defer-accepted", "%s: second defer() for the same request returned a handle", ctx);
+			}
 			break; }
 		case 6: { /* resolve a deferred handle: explicit reply (transport may refuse it) or release (NULL message) */
 			static const MPT_STRUCT(message) text = { 2, "ok", 0, 0 };
@@ -613,8 +625,107 @@ static uint64_t n_buf(void) { return vf_thorough ? 1800000 : 60000; }
 static uint64_t n_meta(void) { return vf_thorough ? 1950000 : 65000; }
 static uint64_t n_assign(void) { return vf_thorough ? 300000 : 30000; }
 static uint64_t n_refarr(void) { return vf_thorough ? 300000 : 30000; }
+
+/* ---- notifier: inputs handed to mpt_notify_add() are owned by the notifier only on success --- */
+#include <poll.h>
+typedef struct { MPT_INTERFACE(input) in; int id, fd; long refs; int destroyed, misuse; } cinput;
+static int ci_conv(MPT_INTERFACE(convertable) *val, MPT_TYPE(type) type, void *ptr)
+{
+	cinput *ci = (void *) val;
+	const MPT_STRUCT(named_traits) *traits = mpt_input_type_traits();
+	MPT_TYPE(type) me = traits ? traits->type : (MPT_TYPE(type)) MPT_ENUM(TypeMetaPtr);
+	if (ci->destroyed) ci->misuse++;
+	if (!type) { static const char fmt[] = { MPT_ENUM(TypeUnixSocket), 0 }; if (ptr) *((const char **) ptr) = fmt; return me; }
+	if ((traits && type == traits->type) || type == MPT_ENUM(TypeMetaPtr)) { if (ptr) *((void **) ptr) = &ci->in; return MPT_ENUM(TypeUnixSocket); }
+	if (type == MPT_ENUM(TypeUnixSocket)) { if (ptr) ((MPT_STRUCT(socket) *) ptr)->_id = ci->fd; return me; }
+	return MPT_ERROR(BadType);
+}
+static void ci_unref(MPT_INTERFACE(metatype) *mt)
+{
+	cinput *ci = (void *) mt;
+	vf_count("monitor:input-unref", 1);
+	if (ci->destroyed) { ci->misuse++; return; }
+	if (--ci->refs) return;
+	ci->destroyed = 1;   /* memory stays with the harness so that later accesses are visible */
+}
+static uintptr_t ci_addref(MPT_INTERFACE(metatype) *mt)
+{
+	cinput *ci = (void *) mt;
+	if (ci->destroyed) { ci->misuse++; return 0; }
+	return (uintptr_t) ++ci->refs;
+}
+static MPT_INTERFACE(metatype) *ci_clone(const MPT_INTERFACE(metatype) *mt) { (void) mt; return 0; }
+static int ci_next(MPT_INTERFACE(input) *in, int what) { (void) in; (void) what; return 0; }
+static int ci_dispatch(MPT_INTERFACE(input) *in, MPT_TYPE(event_handler) cmd, void *arg) { (void) in; (void) cmd; (void) arg; return 0; }
+static const MPT_INTERFACE_VPTR(input) ci_vptr = { { { ci_conv }, ci_unref, ci_addref, ci_clone }, ci_next, ci_dispatch };
+
+static void case_notify(vf_rng *r)
+{
+	MPT_STRUCT(notify) no = MPT_NOTIFY_INIT;
+	cinput in[8];
+	int pfd[8][2], nin = 0, owned[8], extra[8];   /* owned: notifier holds one reference; extra: handles kept by the harness */
+	static int filefd = -1;
+	char ctx[160];
+	int nops = vf_range(r, 3, 8), refused = 0;
+	if (filefd < 0) {
+		char tmpl[] = "/tmp/vf-c15-notify-XXXXXX";
+		filefd = mkstemp(tmpl);
+		if (filefd < 0) vf_inconclusive("mkstemp failed");
+		unlink(tmpl);
+	}
+	vf_fp_u64(0x9071f);
+	for (int i = 0; i < nops && nin < 8; i++) {
+		int kind = (int) vf_below(r, 3), keep = (int) vf_below(r, 2);
+		cinput *ci = &in[nin];
+		pfd[nin][0] = pfd[nin][1] = -1;
+		memset(ci, 0, sizeof(*ci));
+		ci->in._vptr = &ci_vptr; ci->id = nin; ci->refs = 1;
+		if (kind == 0) {
+			/* a regular file cannot be registered for polling: the add is refused after the slot was reserved */
+			ci->fd = dup(filefd);
+		} else {
+			if (pipe(pfd[nin]) < 0) vf_inconclusive("pipe failed");
+			ci->fd = pfd[nin][0];
+		}
+		if (keep) ci_addref((void *) &ci->in);
+		snprintf(ctx, sizeof(ctx), "notify_add input %d (%s, harness keeps %d handle)", nin, kind ? "pipe" : "regular file", keep);
+		vf_log("%s", ctx);
+		vf_fp_u64((kind << 4) ^ keep);
+		vf_at("mpt_notify_add"); vf_count("mpt_notify_add", 1);
+		int ret = mpt_notify_add(&no, POLLIN, &ci->in);
+		owned[nin] = ret >= 0;
+		extra[nin] = keep;
+		if (ret < 0) {
+			/* not taken: the caller still owns the reference it offered and drops it, as mpt_notify_connect() does */
+			refused++; vf_count("notify:add-refused", 1);
+			ci_unref((void *) &ci->in);
+		}
+		nin++;
+		for (int q = 0; q < nin; q++) {
+			long expect = owned[q] + extra[q];
+			VF_CHECK(!in[q].misuse, "notify:input-used-after-destroy", "%s: input %d touched after its last reference was dropped", ctx, q);
+			VF_CHECK(in[q].destroyed ? expect == 0 : in[q].refs == expect, in[q].refs > expect ? "notify:reference-leaked" : "notify:reference-lost",
+			         "%s: input %d has %ld references, %ld handles exist", ctx, q, in[q].destroyed ? 0L : in[q].refs, expect);
+		}
+		vf_count("monitor:notify-checks", 1);
+	}
+	vf_at("mpt_notify_fini");
+	mpt_notify_fini(&no);
+	for (int q = 0; q < nin; q++) {
+		VF_CHECK(!in[q].misuse, "notify:input-used-after-destroy", "input %d touched after its destruction (notifier cleanup)", q);
+		VF_CHECK(in[q].destroyed ? extra[q] == 0 : in[q].refs == extra[q], "notify:reference-lost",
+		         "after notifier cleanup input %d has %ld references, the harness holds %d", q, in[q].destroyed ? 0L : in[q].refs, extra[q]);
+		if (extra[q] && !in[q].destroyed) ci_unref((void *) &in[q].in);
+		VF_CHECK(in[q].destroyed == 1, "notify:reference-leaked", "input %d not destroyed after all handles are gone", q);
+		if (pfd[q][0] >= 0) { close(pfd[q][0]); close(pfd[q][1]); } else close(in[q].fd);
+	}
+	if (refused) vf_nontrivial();
+	vf_sample("notifier with %d counted inputs, %d refused by the poll descriptor", nin, refused);
+}
+
 static uint64_t n_stg(void) { return vf_thorough ? 200000 : 20000; }
-uint64_t vf_cases(void) { return n_raw() + n_buf() + n_meta() + n_assign() + n_refarr() + n_stg(); }
+static uint64_t n_ntf(void) { return vf_thorough ? 100000 : 10000; }
+uint64_t vf_cases(void) { return n_raw() + n_buf() + n_meta() + n_assign() + n_refarr() + n_stg() + n_ntf(); }
 void vf_case(uint64_t idx, vf_rng *r)
 {
 	if (idx < n_raw()) { case_raw(idx); return; }
@@ -626,5 +737,7 @@ void vf_case(uint64_t idx, vf_rng *r)
 	if (idx < n_assign()) { case_assign(r); return; }
 	idx -= n_assign();
 	if (idx < n_refarr()) { case_refarray(r); return; }
-	stage_history(r, "stage");
+	idx -= n_refarr();
+	if (idx < n_stg()) { stage_history(r, "stage"); return; }
+	case_notify(r);
 }
